@@ -310,7 +310,9 @@ func executePlan(prop, tier string, seed uint64, plan *Plan, nproc int, t0 time.
 		if bin == "" || race {
 			bin = bins[race]
 		}
+		tm := time.Now()
 		min, orig, ok, err := minimise(bin, v, race)
+		fmt.Printf("  (minimisation of %s took %.1fs)\n", sig, time.Since(tm).Seconds())
 		if err != nil {
 			return 2, err
 		}
